@@ -19,6 +19,10 @@ type SwComponents[I ISwComponent] struct {
 
 func (o SwComponents[I]) Validate() error {
 	for i, sc := range o.values {
+		if isNilSwComponent(sc) {
+			return fmt.Errorf("failed at index %d: %w: null software component", i, ErrWrongSyntax)
+		}
+
 		if err := sc.Validate(); err != nil {
 			return fmt.Errorf("failed at index %d: %w", i, err)
 		}
@@ -31,6 +35,10 @@ func (o SwComponents[I]) Values() ([]ISwComponent, error) {
 	ret := make([]ISwComponent, len(o.values))
 
 	for i, sc := range o.values {
+		if isNilSwComponent(sc) {
+			return nil, fmt.Errorf("failed at index %d: %w: null software component", i, ErrWrongSyntax)
+		}
+
 		if err := sc.Validate(); err != nil {
 			return nil, fmt.Errorf("failed at index %d: %w", i, err)
 		}
@@ -83,10 +91,26 @@ func (o *SwComponents[I]) UnmarshalJSON(v []byte) error {
 	return json.Unmarshal(v, &o.values)
 }
 
+// isNilSwComponent reports whether sc is a nil interface or holds a nil
+// pointer (e.g. a null element of a decoded software components array).
+func isNilSwComponent(sc ISwComponent) bool {
+	if sc == nil {
+		return true
+	}
+
+	v := reflect.ValueOf(sc)
+
+	return v.Kind() == reflect.Pointer && v.IsNil()
+}
+
 func validateAndConvert[I ISwComponent](vals []ISwComponent) ([]I, error) {
 	ret := make([]I, len(vals))
 
 	for i, sc := range vals {
+		if isNilSwComponent(sc) {
+			return nil, fmt.Errorf("failed at index %d: %w: null software component", i, ErrWrongSyntax)
+		}
+
 		if err := sc.Validate(); err != nil {
 			return nil, fmt.Errorf("failed at index %d: %w", i, err)
 		}
